@@ -33,7 +33,7 @@ fn pr(e: &Ir, cid: &dyn Fn(usize) -> usize) -> String {
 }
 fn pr_st(s: &St, cid: &dyn Fn(usize) -> usize) -> String { let p = |x: &Ir| pr(x, cid); match s { St::Let(e) => format!("(SLet {})", p(e)), St::Assign(pl, e) => format!("(SAssign {} {})", pr_pl(pl), p(e)), St::If(c, t, f) => format!("(SIf {} {} {})", p(c), pr_list(t, &|s| pr_st(s, cid)), pr_list(f, &|s| pr_st(s, cid))), St::Expr(e) => format!("(SExpr {})", p(e)), St::Assert(e) => format!("(SAssert {})", p(e)) } }
 
-fn walk(e: &Ir, calls: &mut Vec<usize>, orc: &mut bool) { match e { Ir::Prim(p, a) => { if ["FSin", "FCos", "FTan", "FExp", "FAcos", "FAsin", "FPowf", "FAtan2", "FMinStd", "FMaxStd", "PFmt"].iter().any(|o| p.contains(o)) { *orc = true; } for x in a { walk(x, calls, orc); } } Ir::Call(i, a) => { calls.push(*i); for x in a { walk(x, calls, orc); } }
+fn walk(e: &Ir, calls: &mut Vec<usize>, orc: &mut bool) { match e { Ir::Prim(p, a) => { if ["FSin", "FCos", "FTan", "FExp", "FAcos", "FAsin", "FPowf", "FAtan2", "PFmt"].iter().any(|o| p.contains(o)) { *orc = true; } for x in a { walk(x, calls, orc); } } Ir::Call(i, a) => { calls.push(*i); for x in a { walk(x, calls, orc); } }
     Ir::If(a, b, c) | Ir::MatchOpt(a, b, c) | Ir::Fold(a, b, c) => { walk(a, calls, orc); walk(b, calls, orc); walk(c, calls, orc); } Ir::MatchI(s, arms, d) => { walk(s, calls, orc); for (_, x) in arms { walk(x, calls, orc); } walk(d, calls, orc); }
     Ir::Block(ss, t) => { for st in ss { walk_st(st, calls, orc); } walk(t, calls, orc); } Ir::Return(x) | Ir::Try(x) => walk(x, calls, orc), _ => {} } }
 fn walk_st(s: &St, calls: &mut Vec<usize>, orc: &mut bool) { match s { St::Let(e) | St::Expr(e) | St::Assert(e) | St::Assign(_, e) => walk(e, calls, orc), St::If(c, t, f) => { walk(c, calls, orc); for x in t { walk_st(x, calls, orc); } for x in f { walk_st(x, calls, orc); } } } }
@@ -112,7 +112,7 @@ fn main() {
         let env = &co.env;
         fn rty(env: &Env, t: &Ty) -> Option<String> { Some(match t { F32 => "f32".into(), F64 => "f64".into(), Int(k) => k.to_string(), Bool => "bool".into(), Unit => "()".into(),
             Named(n) => { if n == "EulerRot" { "glam::EulerRot".into() } else if env.structs.contains_key(n) && !n.contains('<') && n != "Order" { format!("glam::{n}") } else { return None } }
-            Tuple(ts) => format!("({},)", ts.iter().map(|x| rty(env, x)).collect::<Option<Vec<_>>>()?.join(", ")), Array(et, Some(n)) => format!("[{}; {n}]", rty(env, et)?), Opt(t) => format!("Option<{}>", rty(env, t)?), _ => return None }) }
+            Tuple(ts) => format!("({},)", ts.iter().map(|x| rty(env, x)).collect::<Option<Vec<_>>>()?.join(", ")), Array(et, Some(n)) => format!("[{}; {n}]", rty(env, et)?), Opt(t) => format!("Option<{}>", rty(env, t)?), Slice(t) => format!("Vec<{}>", rty(env, t)?), _ => return None }) }
         let mut arms: Vec<String> = vec![];
         for i in 0..env.fns.len() { let f = &env.fns[i]; if f.file.contains("features/") || f.generic || (f.body.is_none() && f.const_init.is_none()) { continue; } if !f.is_pub || f.by_ref || f.file.starts_with("sse2.rs") || f.file.starts_with("coresimd.rs") || f.file.starts_with("neon.rs") || f.file.starts_with("wasm32.rs") || f.module.contains("math") || f.file.contains("euler.rs") || f.file.contains("deref") || f.file.contains("align16") || f.file.contains("macros") { continue; }
             if f.self_mut && f.ret != Unit { continue; }
@@ -120,7 +120,9 @@ fn main() {
             let mut argexprs = vec![]; let mut ok = true;
             let self_path = match &f.self_ty { Some(st) => match rty(env, st) { Some(p) => Some(p), None => { ok = false; None } }, None => None };
             let mut lets = vec![]; if f.has_self { let sp = self_path.clone().unwrap_or_default(); lets.push(format!("let {}a{} = <{sp}>::p(it);", if f.self_mut { "mut " } else { "" }, lets.len())); argexprs.push(format!("{}a{}", if f.self_mut { "&mut " } else if f.self_ref { "&" } else { "" }, lets.len() - 1)); }
-            for (k, (_, pt)) in f.params.iter().enumerate() { if f.param_muts.get(k).copied().unwrap_or(false) { ok = false; } match rty(env, pt) { Some(p) => { lets.push(format!("let a{} = <{p}>::p(it);", lets.len())); argexprs.push(format!("{}a{}", if f.param_refs.get(k).copied().unwrap_or(false) { "&" } else { "" }, lets.len() - 1)); } None => ok = false } }
+            let mut outslice: Option<usize> = None;
+            for (k, (_, pt)) in f.params.iter().enumerate() { let pm = f.param_muts.get(k).copied().unwrap_or(false); if pm && !matches!(pt, Slice(_)) { ok = false; } match rty(env, pt) { Some(p) => { lets.push(format!("let {}a{} = <{p}>::p(it);", if pm { "mut " } else { "" }, lets.len())); if pm { outslice = Some(lets.len() - 1); } argexprs.push(format!("{}a{}{}", if pm { "&mut " } else if f.param_refs.get(k).copied().unwrap_or(false) { "&" } else { "" }, lets.len() - 1, if matches!(pt, Slice(_)) { "[..]" } else { "" })); } None => ok = false } }
+            if outslice.is_some() && (f.self_mut || f.ret != Unit) { ok = false; }
             if rty(env, &f.ret).is_none() { ok = false; }
             if !ok { continue; }
             let callee = match (&self_path, &f.trait_) { (Some(sp), None) => format!("{sp}::{}", f.name),
@@ -129,6 +131,7 @@ fn main() {
                 (None, _) => format!("glam::{}", f.name) };
             let call = if f.const_init.is_some() { callee } else { format!("{callee}({})", argexprs.join(", ")) };
             let post = if matches!(f.ret, Res(_)) { ".ok()" } else { "" };
+            if let Some(k) = outslice { arms.push(format!("        {} => {{ {} {call}; a{k}.o(out); }}", i + 1, lets.join(" "))); } else
             if f.self_mut { arms.push(format!("        {} => {{ {} {call}; a0.o(out); }}", i + 1, lets.join(" "))); } else { arms.push(format!("        {} => {{ {} let r = {call}{post}; r.o(out); }}", i + 1, lets.join(" "))); }
             co.arms.insert(i, ()); }
         let mut d = String::from("// generated by rs2v\nuse crate::rt::*;\n"); let per = 300;
